@@ -7,7 +7,7 @@ import re
 from typing import List, Dict, Any, Callable, Optional
 from rtypes import Ty, parse_type, UNIT
 from translate import (Translator, TranslateError, SNode, ScalarN, RefN, UnitN, StructN, EnumN, ArrN, Loc, VScalar,
-                       VRef, VLoc, VAgg, VUnit, VConst, CallCtx, sub, Storage)
+                       VRef, VLoc, VAgg, VUnit, VConst, VPyClosure, CallCtx, sub, Storage)
 
 MODEL_DOC: Dict[str, str] = {}
 
@@ -179,16 +179,23 @@ def t_vec(tr, ty, name, dims, storage, g):
 
 
 def _unlock(tr: Translator, loc: Loc):
-    """drop of a MutexGuard: release the lock it refers to (no-op when the guard was never bound)"""
+    """drop of a MutexGuard: write the thread-private copy of the protected data back and release the lock
+    (no-op when the guard was never bound)"""
     r = loc.node.fields[0]
     if r.target is None:
         return
     m = tr.deref(VLoc(Loc(r, loc.idxs)))
     lk = m.node.f("locked")
+    cp = loc.node.fields[1]
     atomic_begin(tr)
+    if cp.target is not None:
+        tr.copy(Loc(m.node.f("data"), m.idxs), tr.deref(VLoc(Loc(cp, loc.idxs))))
     tr.emit(f"{tr.lv(Loc(lk, m.idxs))} = 0;")
     visible(tr)
     atomic_end(tr)
+    h = tr.cfg.get("unlock_hook")
+    if h:
+        h(tr, m)
     tr.emit(f"/* unlock {m.node.name} */")
 
 
@@ -205,6 +212,8 @@ def t_guard(tr, ty, name, dims, storage, g):
     s = StructN(ty, name, dims, storage, "Guard")
     s.fields.append(RefN(None, name + "_m", dims, storage))
     s.names.append("m")
+    s.fields.append(RefN(None, name + "_c", dims, storage))
+    s.names.append("c")
     s.extra["drop"] = _unlock
     return s
 
@@ -300,7 +309,10 @@ def install_types(tr: Translator):
     tm["OnceLock"] = t_oncelock
     tm["Thread"] = t_thread
     tm["Box"] = t_transparent
-    for n in ("Duration", "Instant", "PhantomData", "Arguments", "String", "str", "Formatter", "Error",
+    tm["Arc"] = t_transparent
+    tm["ControlFlow"] = t_controlflow
+    tm["Infallible"] = t_unit
+    for n in ("Duration", "Instant", "PhantomData", "Arguments", "Argument", "String", "str", "Formatter", "Error",
               "ExecuteMetricsCollector", "Histogram", "Counter", "Gauge", "RandomState"):
         tm[n] = t_unit
     tm["Iter"] = _t_iter_dispatch
@@ -491,18 +503,30 @@ def m_vec_clear(tr, c):
 # parking_lot::Mutex
 # ---------------------------------------------------------------------------------------------
 
-@model("Mutex::lock", doc="parking_lot mutex: atomic test-and-set; a blocked acquire is an assume (safety only)")
+def _acquire(tr, m: Loc, gloc: Loc, cond_prefix=""):
+    """bind guard at gloc to mutex m: the protected data is copied into thread-private storage for the duration of
+    the critical section (sound because Rust only exposes Mutex data through the guard) and written back at unlock"""
+    tr.tmpn += 1
+    cp = tr.clone(m.node.f("data"), f"cs{tr.tmpn}_{m.node.name}", [], tr.cur.storage)
+    tr.copy(Loc(cp, []), Loc(m.node.f("data"), m.idxs))
+    return cp
+
+
+@model("Mutex::lock", doc="parking_lot mutex: atomic test-and-set; a blocked acquire is an assume (safety only); the "
+                          "protected data is copied to thread-private storage inside the critical section and written back at unlock")
 def m_mutex_lock(tr, c):
     m = self_loc(tr, c.args[0], "Mutex")
     lk = tr.lv(Loc(m.node.f("locked"), m.idxs))
     hook = tr.cfg.get("lock_hook")
     if hook:
         hook(tr, m, lk)
+    d = c.dest()
     atomic_begin(tr)
     tr.emit(f"__CPROVER_assume(!{lk}); {lk} = 1;")
+    cp = _acquire(tr, m, d)
     atomic_end(tr)
-    d = c.dest()
     tr.store(Loc(d.node.fields[0], d.idxs), VRef(m.node, m.idxs))
+    tr.store(Loc(d.node.fields[1], d.idxs), VRef(cp, []))
     tr.emit(f"/* lock {m.node.name} */")
 
 
@@ -515,9 +539,11 @@ def m_mutex_try_lock(tr, c):
     si, ni = n.vindex("Some"), n.vindex("None")
     atomic_begin(tr)
     tr.emit(f"if (!{lk}) {{ {lk} = 1; {tr.lv(Loc(n.discr, d.idxs))} = {si}; }} else {{ {tr.lv(Loc(n.discr, d.idxs))} = {ni}; }}")
+    cp = _acquire(tr, m, d)
     atomic_end(tr)
     g = n.variants[si][1].fields[0]
     tr.store(Loc(g.fields[0], d.idxs), VRef(m.node, m.idxs))
+    tr.store(Loc(g.fields[1], d.idxs), VRef(cp, []))
 
 
 @model("<MutexGuard as Deref>::deref", "<MutexGuard as DerefMut>::deref_mut", doc="guard -> protected data")
@@ -525,8 +551,8 @@ def m_guard_deref(tr, c):
     g = tr.deref(c.args[0])
     if not (g.node.kind == "struct" and g.node.tag == "Guard"):
         raise TranslateError(f"deref of non-guard {g.node.name}")
-    m = tr.deref(VLoc(Loc(g.node.fields[0], g.idxs)))
-    c.ret(VRef(m.node.f("data"), m.idxs))
+    cp = tr.deref(VLoc(Loc(g.node.fields[1], g.idxs)))
+    c.ret(VRef(cp.node, cp.idxs))
 
 
 @model("Mutex::new", doc="unlocked mutex holding the value")
@@ -797,7 +823,7 @@ def m_opt_map_or(tr, c):
     dd = tr.lv(Loc(o.node.discr, o.idxs))
     d = c.dest(like=c.args[1])
     tr.emit(f"if ({dd} == {si}) {{")
-    tr.call_closure(c.inst, c.args[2], [VAgg([VLoc(Loc(o.node.variants[si][1].fields[0], o.idxs))])], d)
+    tr.call_closure(c.inst, c.args[2], [VLoc(Loc(o.node.variants[si][1].fields[0], o.idxs))], d)
     tr.emit("} else {")
     tr.store(d, c.args[1])
     tr.emit("}")
@@ -812,7 +838,7 @@ def m_opt_map(tr, c):
     n = d.node
     tr.emit(f"if ({dd} == {si}) {{")
     tr.emit(f"{tr.lv(Loc(n.discr, d.idxs))} = {n.vindex('Some')};")
-    tr.call_closure(c.inst, c.args[1], [VAgg([VLoc(Loc(o.node.variants[si][1].fields[0], o.idxs))])],
+    tr.call_closure(c.inst, c.args[1], [VLoc(Loc(o.node.variants[si][1].fields[0], o.idxs))],
                     Loc(n.variants[n.vindex('Some')][1].fields[0], d.idxs))
     tr.emit("} else {")
     tr.emit(f"{tr.lv(Loc(n.discr, d.idxs))} = {n.vindex('None')};")
@@ -829,7 +855,7 @@ def m_opt_filter(tr, c):
     keep = tr.tmp("_Bool", "keep")
     tmpn = tr.alloc(parse_type("bool"), f"keepn{tr.tmpn}", [], tr.cur.storage)
     tr.emit(f"if ({dd} == {si}) {{")
-    tr.call_closure(c.inst, c.args[1], [VAgg([VRef(o.node.variants[si][1].fields[0], o.idxs)])], Loc(tmpn, []))
+    tr.call_closure(c.inst, c.args[1], [VRef(o.node.variants[si][1].fields[0], o.idxs)], Loc(tmpn, []))
     tr.emit(f"if (!{tmpn.name}) {tr.lv(Loc(d.node.discr, d.idxs))} = {ni};")
     tr.emit("}")
 
@@ -851,7 +877,7 @@ def m_then(tr, c):
     n = d.node
     si, ni = n.vindex("Some"), n.vindex("None")
     tr.emit(f"if ({b.expr}) {{ {tr.lv(Loc(n.discr, d.idxs))} = {si};")
-    tr.call_closure(c.inst, c.args[1], [VAgg([])], Loc(n.variants[si][1].fields[0], d.idxs))
+    tr.call_closure(c.inst, c.args[1], [], Loc(n.variants[si][1].fields[0], d.idxs))
     tr.emit(f"}} else {{ {tr.lv(Loc(n.discr, d.idxs))} = {ni}; }}")
 
 
@@ -866,7 +892,7 @@ def m_map_err(tr, c):
     if o.node.variants[oki][1].fields:
         tr.copy(Loc(n.variants[n.vindex('Ok')][1].fields[0], d.idxs), Loc(o.node.variants[oki][1].fields[0], o.idxs))
     tr.emit(f"}} else {{ {tr.lv(Loc(n.discr, d.idxs))} = {n.vindex('Err')};")
-    tr.call_closure(c.inst, c.args[1], [VAgg([VLoc(Loc(o.node.variants[erri][1].fields[0], o.idxs))])],
+    tr.call_closure(c.inst, c.args[1], [VLoc(Loc(o.node.variants[erri][1].fields[0], o.idxs))],
                     Loc(n.variants[n.vindex('Err')][1].fields[0], d.idxs))
     tr.emit("}")
 
@@ -878,26 +904,26 @@ def m_opt_map_or_else(tr, c):
     dd = tr.lv(Loc(o.node.discr, o.idxs))
     d = c.dest()
     tr.emit(f"if ({dd} == {si}) {{")
-    tr.call_closure(c.inst, c.args[2], [VAgg([VLoc(Loc(o.node.variants[si][1].fields[0], o.idxs))])], d)
+    tr.call_closure(c.inst, c.args[2], [VLoc(Loc(o.node.variants[si][1].fields[0], o.idxs))], d)
     tr.emit("} else {")
-    tr.call_closure(c.inst, c.args[1], [VAgg([])], d)
+    tr.call_closure(c.inst, c.args[1], [], d)
     tr.emit("}")
 
 
-@model(rx(r"std::cmp::(max|min)"), rx(r"<(usize|u64|u8|u32|isize) as Ord>::(max|min)"), rx(r"core::cmp::Ord::(max|min)"))
+@model(rx(r"std::cmp::(max|min)"), "max", "min", rx(r"<(usize|u64|u8|u32|isize) as Ord>::(max|min)"), rx(r"core::cmp::Ord::(max|min)"))
 def m_minmax(tr, c):
     a, b = tr.as_scalar(c.args[0]), tr.as_scalar(c.args[1])
     op = ">" if c.key.endswith("max") else "<"
     c.ret(VScalar(f"(({a.expr}) {op} ({b.expr}) ? ({a.expr}) : ({b.expr}))", a.ctype))
 
 
-@model(rx(r"core::num::<impl (usize|u64|u8|u32)>::saturating_sub"))
+@model(rx(r"(core::num::<impl )?(usize|u64|u8|u32)>?::saturating_sub"))
 def m_sat_sub(tr, c):
     a, b = tr.as_scalar(c.args[0]), tr.as_scalar(c.args[1])
     c.ret(VScalar(f"(({a.expr}) > ({b.expr}) ? ({a.expr}) - ({b.expr}) : 0)", a.ctype))
 
 
-@model(rx(r"core::num::<impl (usize|u64|u8|u32)>::saturating_add"))
+@model(rx(r"(core::num::<impl )?(usize|u64|u8|u32)>?::saturating_add"))
 def m_sat_add(tr, c):
     a, b = tr.as_scalar(c.args[0]), tr.as_scalar(c.args[1])
     t = tr.tmp(a.ctype, "sa")
@@ -905,7 +931,7 @@ def m_sat_add(tr, c):
     c.ret(VScalar(f"(({t}) < ({a.expr}) ? ({a.ctype})~({a.ctype})0 : {t})", a.ctype))
 
 
-@model(rx(r"core::num::<impl (usize|u64|u8|u32)>::checked_add"))
+@model(rx(r"(core::num::<impl )?(usize|u64|u8|u32)>?::checked_add"))
 def m_checked_add(tr, c):
     a, b = tr.as_scalar(c.args[0]), tr.as_scalar(c.args[1])
     t = tr.tmp(a.ctype, "ca")
@@ -913,7 +939,7 @@ def m_checked_add(tr, c):
     ret_option_scalar(c, f"!({t} < ({a.expr}))", t)
 
 
-@model(rx(r"core::num::<impl (usize|u64|u8|u32)>::checked_sub"))
+@model(rx(r"(core::num::<impl )?(usize|u64|u8|u32)>?::checked_sub"))
 def m_checked_sub(tr, c):
     a, b = tr.as_scalar(c.args[0]), tr.as_scalar(c.args[1])
     ret_option_scalar(c, f"({a.expr}) >= ({b.expr})", f"(({a.ctype})(({a.expr}) - ({b.expr})))")
@@ -931,7 +957,7 @@ def m_clone_struct(tr, c):
     tr.copy(d, src)
 
 
-@model("std::mem::take", doc="mem::take: move out and leave Default (empty container / zero)")
+@model("std::mem::take", "take", doc="mem::take: move out and leave Default (empty container / zero)")
 def m_mem_take(tr, c):
     src = tr.deref(c.args[0])
     d = c.dest(like=VLoc(src))
@@ -939,7 +965,7 @@ def m_mem_take(tr, c):
     zero_default(tr, src)
 
 
-@model("std::mem::replace", doc="mem::replace")
+@model("std::mem::replace", "replace", doc="mem::replace")
 def m_mem_replace(tr, c):
     src = tr.deref(c.args[0])
     d = c.dest(like=VLoc(src))
@@ -1000,8 +1026,9 @@ def m_default(tr, c):
 
 @model(rx(r"(core|std)::panicking::(panic|panic_fmt|panic_explicit|assert_failed|panic_display|panic_nounwind|unreachable_display)"),
        rx(r"(core|std)::panicking::panic_const::.*"), rx(r"std::rt::(begin_panic|panic_fmt)"),
-       rx(r"core::(option|result)::(expect_failed|unwrap_failed)"), "std::process::abort",
-       rx(r"core::slice::index::.*_fail"), "core::panicking::panic_bounds_check", "std::panic::resume_unwind",
+       rx(r"core::(option|result)::(expect_failed|unwrap_failed)"), "std::process::abort", "panic_fmt", "panic",
+       "assert_failed", "begin_panic", "expect_failed", "unwrap_failed", "panic_explicit", "panic_display",
+       rx(r"core::slice::index::.*_fail"), "core::panicking::panic_bounds_check", "std::panic::resume_unwind", "resume_unwind",
        doc="explicit Rust panic: assertion RUST-PANIC (a reachable panic fails the check unless whitelisted)")
 def m_panic(tr, c):
     msg = c.key
@@ -1013,12 +1040,13 @@ def m_panic(tr, c):
 
 
 @model(rx(r"(core::fmt::rt::<impl )?Arguments(>)?::(new_const|new_v1|new_v1_formatted|from_str|new)"), rx(r"core::fmt::rt::Argument::.*"),
+       rx(r"Argument::.*"), rx(r"Arguments::.*"), rx(r"core::fmt::rt::<impl Arguments>::.*"),
        rx(r"std::fmt::Arguments::.*"), rx(r"core::fmt::rt::.*"), doc="formatting machinery: no effect")
 def m_fmt(tr, c):
     pass
 
 
-@model("std::thread::yield_now", doc="yield: no effect on state (a pre-emption point exists at every visible operation anyway)")
+@model("std::thread::yield_now", "yield_now", doc="yield: no effect on state (a pre-emption point exists at every visible operation anyway)")
 def m_yield(tr, c):
     h = tr.cfg.get("yield_hook")
     if h:
@@ -1037,7 +1065,7 @@ def m_time(tr, c):
 # threads: park / unpark / OnceLock<Thread>
 # ---------------------------------------------------------------------------------------------
 
-@model("std::thread::current", doc="handle of the calling harness thread (its numeric id)")
+@model("std::thread::current", "current", doc="handle of the calling harness thread (its numeric id)")
 def m_thread_current(tr, c):
     d = c.dest()
     tr.emit(f"{tr.lv(Loc(d.node.f('tid'), d.idxs))} = {tr.cur.tid};")
@@ -1081,7 +1109,7 @@ def m_oncelock_get_or_init(tr, c):
     st = tr.lv(Loc(o.node.f("set"), o.idxs))
     tmpv = tr.clone(o.node.f("val"), f"goi{tr.tmpn}_{tr.uid}", [], tr.cur.storage)
     tr.tmpn += 1
-    tr.call_closure(c.inst, c.args[1], [VAgg([])], Loc(tmpv, []))
+    tr.call_closure(c.inst, c.args[1], [], Loc(tmpv, []))
     atomic_begin(tr)
     tr.emit(f"if (!{st}) {{")
     tr.copy(Loc(o.node.f("val"), o.idxs), Loc(tmpv, []))
@@ -1101,7 +1129,7 @@ def m_unpark(tr, c):
     atomic_end(tr)
 
 
-@model("std::thread::park_timeout", "std::thread::park",
+@model("std::thread::park_timeout", "std::thread::park", "park_timeout", "park",
        doc="park WITHOUT timeout: consumes the token if present; otherwise blocks until a token arrives. If every "
            "thread that could still unpark has finished and no token is present the harness assertion 'lost wake-up' fails")
 def m_park(tr, c):
@@ -1110,9 +1138,79 @@ def m_park(tr, c):
     if h:
         return h(tr, c)
     atomic_begin(tr)
-    tr.emit(f'__CPROVER_assert(g_park_token[{tid}] || !g_all_notifiers_done, "LOST-WAKEUP: parked with no token and no notifier left");')
-    tr.emit(f"__CPROVER_assume(g_park_token[{tid}]); g_park_token[{tid}] = 0;")
+    done = tr.cfg.get("notifiers_done_expr", "0")
+    # the park completes when a token is present, or -- so that a lost wake-up is a reachable assertion failure rather
+    # than a silently pruned blocked path -- once every thread that could still unpark this one has finished
+    tr.emit(f"__CPROVER_assume(g_park_token[{tid}] || ({done}));")
+    tr.emit(f'__CPROVER_assert(g_park_token[{tid}], "LOST-WAKEUP: parked with no token and no notifier left (only the timeout would wake this thread)");')
+    tr.emit(f"g_park_token[{tid}] = 0; g_parks++;")
     atomic_end(tr)
+
+
+def _untuple(tr, v):
+    if isinstance(v, VAgg) and v.variant is None:
+        return list(v.fields)
+    if isinstance(v, VLoc) and v.loc.node.kind == "struct":
+        return [VLoc(Loc(f, v.loc.idxs)) for f in v.loc.node.fields]
+    if isinstance(v, (VUnit,)) or (isinstance(v, VLoc) and v.loc.node.kind == "unit"):
+        return []
+    if isinstance(v, VConst):
+        return []
+    raise TranslateError(f"closure argument tuple expected, got {v}")
+
+
+@model(rx(r"<.* as (FnMut|FnOnce|Fn)>::(call_mut|call_once|call)"), doc="closure call: inlines the closure body (MIR) or the harness closure")
+def m_fn_call(tr, c):
+    d = c.dest()
+    tr.call_closure(c.inst, c.args[0], _untuple(tr, c.args[1]) if len(c.args) > 1 else [], d)
+
+
+def t_controlflow(tr, ty, name, dims, storage, g):
+    return tr.make_enum(ty, name, dims, storage, [("Continue", [ty.args[1]]), ("Break", [ty.args[0]])], g)
+
+
+@model("<Result as Try>::branch", doc="`?` on Result: Continue(v) for Ok(v), Break(Err(e)) for Err(e)")
+def m_try_branch(tr, c):
+    r = _opt_loc(tr, c.args[0])
+    d = c.dest()
+    n = d.node
+    oki, erri = r.node.vindex("Ok"), r.node.vindex("Err")
+    ci, bi = n.vindex("Continue"), n.vindex("Break")
+    tr.emit(f"if ({tr.lv(Loc(r.node.discr, r.idxs))} == {oki}) {{ {tr.lv(Loc(n.discr, d.idxs))} = {ci};")
+    if r.node.variants[oki][1].fields and n.variants[ci][1].fields:
+        tr.copy(Loc(n.variants[ci][1].fields[0], d.idxs), Loc(r.node.variants[oki][1].fields[0], r.idxs))
+    tr.emit(f"}} else {{ {tr.lv(Loc(n.discr, d.idxs))} = {bi};")
+    br = n.variants[bi][1].fields[0]          # Result<Infallible, E>
+    tr.emit(f"{tr.lv(Loc(br.discr, d.idxs))} = {br.vindex('Err')};")
+    tr.copy(Loc(br.variants[br.vindex('Err')][1].fields[0], d.idxs), Loc(r.node.variants[erri][1].fields[0], r.idxs))
+    tr.emit("}")
+
+
+@model("<Result as FromResidual>::from_residual", doc="`?`: Err(e) -> Err(From::from(e)) with identity conversion")
+def m_from_residual(tr, c):
+    r = _opt_loc(tr, c.args[0])
+    d = c.dest()
+    n = d.node
+    tr.emit(f"{tr.lv(Loc(n.discr, d.idxs))} = {n.vindex('Err')};")
+    tr.copy(Loc(n.variants[n.vindex('Err')][1].fields[0], d.idxs), Loc(r.node.variants[r.node.vindex('Err')][1].fields[0], r.idxs))
+
+
+@model("<Option as Try>::branch", doc="`?` on Option")
+def m_try_branch_opt(tr, c):
+    r = _opt_loc(tr, c.args[0])
+    d = c.dest()
+    n = d.node
+    si = r.node.vindex("Some")
+    ci, bi = n.vindex("Continue"), n.vindex("Break")
+    tr.emit(f"if ({tr.lv(Loc(r.node.discr, r.idxs))} == {si}) {{ {tr.lv(Loc(n.discr, d.idxs))} = {ci};")
+    tr.copy(Loc(n.variants[ci][1].fields[0], d.idxs), Loc(r.node.variants[si][1].fields[0], r.idxs))
+    tr.emit(f"}} else {{ {tr.lv(Loc(n.discr, d.idxs))} = {bi}; }}")
+
+
+@model("<Option as FromResidual>::from_residual")
+def m_from_residual_opt(tr, c):
+    d = c.dest()
+    tr.emit(f"{tr.lv(Loc(d.node.discr, d.idxs))} = {d.node.vindex('None')};")
 
 
 def install(tr: Translator):
